@@ -345,7 +345,7 @@ fn cmd_bench_spawn(args: &[String]) -> i32 {
         std::fs::write(dir.join("p.fml"), "print(\"probe ~\\n\", 1 + 2)\n").unwrap();
         let mut c = proc::Child::new(profile, &["run", "p.fml"]);
         if shim {
-            c.shim = Some(proc::ShimCfg { seed: i as u64, plan: String::new(), clock: None, junk: 0, budget: None });
+            c.shim = Some(proc::ShimCfg { seed: i as u64, plan: String::new(), clock: None, junk: 0, budget: None, ..Default::default() });
         }
         let r = proc::run_child(&dir, &c);
         let _ = std::fs::remove_dir_all(&dir);
